@@ -4073,6 +4073,30 @@ class Fused(Blockwise):
         # Always broadcast single-partition dependencies in Fused
         return dep.npartitions == 1
 
+    @functools.cached_property
+    def _inputs(self):
+        # The external inputs under the names the members read them, in the
+        # order of ``dependencies()``.  A later optimizer pass may replace a
+        # dependency by an equivalent expression with another name
+        local = {_expr._name for _expr in self.exprs}
+        return [
+            dep
+            for _expr in self.exprs
+            for dep in _expr.dependencies()
+            if dep._name not in local
+        ]
+
+    @property
+    def _projection_columns(self):
+        # What the members select from the external inputs
+        local = {_expr._name for _expr in self.exprs}
+        return [
+            col
+            for _expr in self.exprs
+            if any(dep._name not in local for dep in _expr.dependencies())
+            for col in _expr._projection_columns
+        ]
+
     def _task(self, index):
         graph = {self._name: (self.exprs[0]._name, index)}
         for _expr in self.exprs:
@@ -4084,8 +4108,12 @@ class Fused(Blockwise):
                 # The external inputs of the nested group are members or
                 # external inputs of this one: drop its placeholders, they
                 # must not replace the tasks of members added before
-                for dep in _expr.dependencies():
-                    subgraph.pop(_expr._blockwise_arg(dep, i), None)
+                for old, dep in zip(_expr._inputs, _expr.dependencies()):
+                    subgraph.pop(_expr._blockwise_arg(old, i), None)
+                    if old._name != dep._name:
+                        subgraph[_expr._blockwise_arg(old, i)] = (
+                            _expr._blockwise_arg(dep, i)
+                        )
                 graph.update(subgraph)
                 graph[(name, i)] = name
             else:
@@ -4094,7 +4122,7 @@ class Fused(Blockwise):
         # Placeholders for the external inputs.  ``dask.core.get`` resolves any
         # hashable argument equal to a key, so they must not be able to collide
         # with literals (e.g. a column label "_0") used by the fused members.
-        for i, dep in enumerate(self.dependencies()):
+        for i, dep in enumerate(self._inputs):
             graph[self._blockwise_arg(dep, index)] = (self._name, "_dep", i)
 
         return (
